@@ -13,35 +13,8 @@
 (* Values arrive as JSON {"t","v"} (dictionaries with "k" and "v"); reals   *)
 (* with an empty "v" are compared by token shape only (the digits of a      *)
 (* float64 are outside the model).                                          *)
-EXTENDS PdfSyntax, TraceLib
+EXTENDS SyntaxJson
 
-\* {"t":"chain","c":links,"v":inner}: a tower of single-member containers around
-\* inner (the JSON reader is limited to 255 levels); a link is <<0>> for an
-\* array, <<1>> \o key for a dictionary
-RECURSIVE Unchain(_, _, _)
-Unchain(c, n, inner) ==
-  IF n > Len(c) THEN inner
-  ELSE LET rest == Unchain(c, n + 1, inner)
-       IN IF c[n][1] = 0 THEN Arr(<<rest>>) ELSE Dict([q \in {Tail(c[n])} |-> rest])
-RECURSIVE FromJ(_)
-FromJ(j) ==
-  CASE j.t = "chain" -> Unchain(j.c, 1, FromJ(j.v))
-    [] j.t = "arr"  -> Arr([i \in 1..Len(j.v) |-> FromJ(j.v[i])])
-    [] j.t = "dict" -> Dict([q \in ToSet(j.k) |-> FromJ(j.v[CHOOSE i \in 1..Len(j.k) : j.k[i] = q])])
-    [] OTHER -> [t |-> j.t, v |-> j.v]
-FromJSeq(js) == [i \in 1..Len(js) |-> FromJ(js[i])]
-
-\* equality of values, except that a wanted real without digits matches any real
-RECURSIVE Matches(_, _)
-Matches(got, want) ==
-  /\ got.t = want.t
-  /\ CASE got.t = "arr"  -> Len(got.v) = Len(want.v) /\ \A i \in 1..Len(got.v) : Matches(got.v[i], want.v[i])
-        [] got.t = "dict" -> DOMAIN got.v = DOMAIN want.v /\ \A k \in DOMAIN got.v : Matches(got.v[k], want.v[k])
-        [] got.t = "real" -> want.v = <<>> \/ got.v = want.v
-        [] OTHER -> got.v = want.v
-MatchesSeq(gs, ws) == Len(gs) = Len(ws) /\ \A i \in 1..Len(gs) : Matches(gs[i], ws[i])
-
-Has(c, f) == f \in DOMAIN c
 CaseOK(c) ==
   IF Has(c, "fmterr") THEN FALSE                       \* Format is total on values within the limits
   ELSE IF Has(c, "bytes2") /\ c.bytes # c.bytes2 THEN FALSE   \* ... and a function of values and options
